@@ -6,6 +6,7 @@ answer prescribed by `Spec/Rfc1034.lean`, the class predicate holds, and no othe
 (`corpus/C10/known-findings.case`, same zones and queries).
 -/
 import HickoryVerif.Model.AuthZoneDev
+import HickoryVerif.Model.AuthZoneSignedDev
 
 namespace HickoryVerif.C10
 open HickoryVerif HickoryVerif.AuthZone HickoryVerif.AuthZone.Dev HickoryVerif.Spec.Rfc1034
@@ -151,5 +152,114 @@ theorem witness_cname_into_cut :
     (answerImpl zAlias origin qAlias).answers = [aliasCname, subNs] ∧
     (answerSpec MAX_CNAME_DEPTH zAlias origin qAlias).answers = [aliasCname] ∧
     (answerSpec MAX_CNAME_DEPTH zAlias origin qAlias).authority = some [subNs] := by decide
+
+end HickoryVerif.C10
+
+/-! ## signed stage (DO=1, NSEC): the stores below are what `secure_zone` produces for the replay
+zones of `corpus/C10/known-findings.case` (taken from the case lines the harness prints) -/
+
+namespace HickoryVerif.C10
+open HickoryVerif HickoryVerif.AuthZone HickoryVerif.AuthZone.SDev HickoryVerif.Spec.Rfc1034
+
+def lA : Bytes := [97]
+def lY : Bytes := [121]
+def lW : Bytes := [119]
+def lT : Bytes := [116]
+
+def tApexNsec : List Nat := [T_NS, T_SOA, T_RRSIG, T_NSEC, T_DNSKEY]
+def tANsec : List Nat := [T_A, T_RRSIG, T_NSEC]
+def tCnameNsec : List Nat := [T_CNAME, T_RRSIG, T_NSEC]
+
+def sg (r : RRset) (l : Nat) : RRset := { r with sigLabels := some l }
+def nsecRR (owner next : LName) (tys : List Nat) (l : Nat) : RRset :=
+  { name := owner, type := T_NSEC, rdatas := [{ tag := 0, target := some next, types := tys }], sigLabels := some l }
+def dnskey : RRset := { name := origin, type := T_DNSKEY, rdatas := [{ tag := 0, target := none }], sigLabels := some 1 }
+def aA : RRset := { name := [lA, lExample], type := T_A, rdatas := [{ tag := 1, target := none }], sigLabels := some 2 }
+def nsA : RRset := { name := [lNs, lExample], type := T_A, rdatas := [{ tag := 53, target := none }], sigLabels := some 2 }
+
+/-- apex, `a.example. A`, `ns.example. A`; NSEC chain example → a → ns → example -/
+def sNx : Zone :=
+  [sg apexNs 1, sg soa 1, nsecRR origin [lA, lExample] tApexNsec 1, dnskey,
+   aA, nsecRR [lA, lExample] [lNs, lExample] tANsec 2,
+   nsA, nsecRR [lNs, lExample] origin tANsec 2]
+
+/-- `x.y.example. A`: NXDOMAIN; the only NSEC sent is `ns.example. → example.`, which covers the
+query name but not `*.example.` (that is `example. → a.example.`) -/
+def qXY : Query := { name := [lX, lY, lExample], type := T_A }
+theorem witness_nsec_no_wildcard_denial :
+    allSigned sNx = true ∧ nxNoWildcardDenial sNx origin qXY = true ∧
+    (answerImplS sNx origin qXY true true).rcode = .nxDomain ∧
+    (answerImplS sNx origin qXY true true).authority =
+      [nsecRR [lNs, lExample] origin tANsec 2, sg soa 1] ∧
+    closestEncloser sNx qXY.name = origin ∧
+    covers (nsecRR origin [lA, lExample] tApexNsec 1) [star, lExample] = true ∧
+    covers (nsecRR [lNs, lExample] origin tANsec 2) [star, lExample] = false := by decide
+
+def wildCnameApex : RRset :=
+  { name := [star, lExample], type := T_CNAME, rdatas := [{ tag := 0, target := some origin }], sigLabels := some 1 }
+
+/-- apex, `*.example. CNAME example.` -/
+def sSoa : Zone :=
+  [sg apexNs 1, sg soa 1, nsecRR origin [star, lExample] tApexNsec 1, dnskey,
+   wildCnameApex, nsecRR [star, lExample] origin tCnameNsec 1]
+
+/-- `x.example. SOA` through the wildcard CNAME: apex NS in the authority section, no NSEC -/
+def qXSoa : Query := { name := [lX, lExample], type := T_SOA }
+theorem witness_soa_query_wildcard_no_proof :
+    allSigned sSoa = true ∧ soaQueryWildcardNoProof sSoa origin qXSoa = true ∧
+    expandedOwners (answerImplS sSoa origin qXSoa true true).answers = [[lX, lExample]] ∧
+    (answerImplS sSoa origin qXSoa true true).authority = [sg apexNs 1] := by decide
+
+def aCnameXW : RRset :=
+  { name := [lA, lExample], type := T_CNAME, rdatas := [{ tag := 0, target := some [lX, lW, lExample] }],
+    sigLabels := some 2 }
+def wildWA : RRset :=
+  { name := [star, lW, lExample], type := T_A, rdatas := [{ tag := 4, target := none }], sigLabels := some 2 }
+
+/-- apex, `a.example. CNAME x.w.example.`, `*.w.example. A` -/
+def sExp : Zone :=
+  [sg apexNs 1, sg soa 1, nsecRR origin [lA, lExample] tApexNsec 1, dnskey,
+   aCnameXW, nsecRR [lA, lExample] [star, lW, lExample] tCnameNsec 2,
+   wildWA, nsecRR [star, lW, lExample] origin tANsec 2]
+
+/-- `a.example. A`: the expansion `x.w.example. A` is sent with the NSEC of `a.example.` -/
+def qAA : Query := { name := [lA, lExample], type := T_A }
+theorem witness_wildcard_expansion_not_proven :
+    allSigned sExp = true ∧ wildcardExpansionNotProven sExp origin qAA = true ∧
+    expandedOwners (answerImplS sExp origin qAA true true).answers = [[lX, lW, lExample]] ∧
+    (answerImplS sExp origin qAA true true).authority =
+      [nsecRR [lA, lExample] [star, lW, lExample] tCnameNsec 2] ∧
+    covers (nsecRR [star, lW, lExample] origin tANsec 2) [lX, lW, lExample] = true := by decide
+
+/-! ## the hypotheses of `impl_eq_spec_partial` are satisfiable by non-trivial cases -/
+
+def hypsHold (z : Zone) (q : Query) : Bool :=
+  Dev.zoneWF z origin && !Dev.WildcardGap z origin q && !Dev.NestedCut z origin q &&
+  !Dev.nsAnyBelowCut z origin q && !Dev.soaBelowCut z origin q && !Dev.cnameIntoCut z origin q &&
+  !Dev.anyNotAtOwner z q
+
+/-- wildcard synthesis from the closest encloser: `host3.example. MX` from `*.example. MX` -/
+theorem nonvacuous_wildcard :
+    hypsHold zWild { name := [lHost3, lExample], type := T_MX } = true ∧
+    (answerImpl zWild origin { name := [lHost3, lExample], type := T_MX }).answers =
+      [{ name := [lHost3, lExample], type := T_MX, rdatas := wildMx.rdatas }] := by decide
+
+/-- a referral (`www.sub.example. A` below the cut), NODATA at an existing name, NXDOMAIN -/
+theorem nonvacuous_referral_nodata_nxdomain :
+    hypsHold zCut qReferral = true ∧ (answerImpl zCut origin qReferral).authority = [subNs] ∧
+    hypsHold zWild { name := [lHost1, lExample], type := T_AAAA } = true ∧
+    (answerImpl zWild origin { name := [lHost1, lExample], type := T_AAAA }).authority = [soa] ∧
+    hypsHold zCut { name := origin, type := T_MX } = true ∧
+    (answerImpl zCut origin { name := origin, type := T_MX }).authority = [soa] ∧
+    hypsHold zCut { name := [lX, lExample], type := T_A } = true ∧
+    (answerImpl zCut origin { name := [lX, lExample], type := T_A }).rcode = .nxDomain := by decide
+
+/-- a CNAME chain inside the zone ending in data: `alias.example. A`, alias → `host1.example.` -/
+def aliasToHost : RRset :=
+  { name := [lAlias, lExample], type := T_CNAME, rdatas := [{ tag := 0, target := some [lHost1, lExample] }] }
+def zChain : Zone := [apexNs, soa, aliasToHost, host1A]
+theorem nonvacuous_cname_chain :
+    hypsHold zChain qAlias = true ∧ (answerImpl zChain origin qAlias).answers = [aliasToHost, host1A] ∧
+    hypsHold zChain { name := [lAlias, lExample], type := T_ANY } = true := by decide
 
 end HickoryVerif.C10
